@@ -326,6 +326,12 @@ impl Check {
                 .map(|(k, v)| json!({"key": k, "occurrences": v.count}))
                 .collect::<Vec<_>>()),
         );
+        if cfg!(in_toto_verif_nosites) {
+            cov.insert(
+                "degraded".into(),
+                json!("built with call-site hooks off (the hooks-on build of the modified library failed): iteration orders and the clock are not owned in this run"),
+            );
+        }
         if distinct_outcomes <= 1 {
             cov.insert(
                 "vacuity_warning".into(),
